@@ -118,6 +118,22 @@ def build_unit(u, wd, defs):
     h = u["harness"]
     a = os.path.join(wd, "a.gb")
     b = os.path.join(wd, "b.gb")
+    if u.get("extract"):
+        # mechanical extraction (run on every build, from the current working tree): the preprocessor
+        # lines and the verbatim text of the named top-level functions of one file; everything else
+        # of that file is dropped.  A function that is not found aborts the unit (undecided).
+        ex = u["extract"]
+        src = open(os.path.join(REPO, ex["file"])).read()
+        parts = ["/* GENERATED on every run by run.py from %s: preprocessor lines + verbatim text of %s */" % (ex["file"], ", ".join(ex["functions"]))]
+        parts += [l for l in src.splitlines() if l.startswith("#")]
+        for fn in ex["functions"]:
+            m = re.search(r"^(?:static )?[A-Za-z_][\w \*]*?\b" + re.escape(fn) + r"\([^;{]*\)\n\{\n.*?^\}\n", src, re.M | re.S)
+            if not m:
+                raise Undecided("extraction: function %s not found in %s" % (fn, ex["file"]))
+            parts.append(m.group(0))
+        gen = os.path.join(wd, "extract.c")
+        open(gen, "w").write("\n".join(parts) + "\n")
+        defs = list(defs) + ['EXTRACT_FILE="%s"' % gen]
     cmd = ["goto-cc", "-D" + GUARD, "-I" + REPO, "-I" + os.path.join(VERIF, "spec"),
            "--function", h] + ["-D" + d for d in u.get("defines", []) + defs] + [tu, "-o", a]
     rc, out, err, t = sh(cmd, timeout=300)
